@@ -99,7 +99,8 @@ def odd_history_worker(ns, items, res, opts):
         'roDelete': lambda n: gen.msg_ro_delete(msg_id=n),
         'metadata': lambda n: gen.msg_metadata_replace(['<roSlug>new &amp; slug</roSlug>'], msg_id=n),
     }
-    for base_kind, seq in items:
+    for base_kind, seq, *entry in items:
+        entry = entry[0] if entry else '+'
         ro_id = gen.RO_ID if base_kind == 'std' else ''
         base = gen.ro_text([st('A'), st('AB'), st('C')], 'between', gen.meta_elems(2), ro_id=ro_id)
         ro = ns.mt.MosFile.from_string(base)
@@ -109,13 +110,18 @@ def odd_history_worker(ns, items, res, opts):
                 text = pool[name](3000 + k)
                 if base_kind != 'std':
                     text = text.replace(f'<roID>{gen.RO_ID}</roID>', '<roID></roID>')
+                if entry == 'merge' and ro.completed:
+                    break       # the refusal of messages after completion belongs to `+`; the documented merge() has no such guard
                 with warnings.catch_warnings():
                     warnings.simplefilter('ignore')
                     try:
-                        ro += ns.mt.MosFile.from_string(text)
+                        if entry == 'merge':
+                            ns.mt.MosFile.from_string(text).merge(ro)      # the documented method behind `+`
+                        else:
+                            ro += ns.mt.MosFile.from_string(text)
                     except ns.exc.MosMergeError:
                         pass
-                history.append(name)
+                history.append(name + ('' if entry == '+' else ' [msg.merge(ro)]'))
             res.transitions += 1
             res.nontrivial += 1
             res.extra['states'] += 1
@@ -194,13 +200,15 @@ def run(tier):
     odd = ('append-existing-A', 'append-E', 'append-E-resent', 'append-two-blank-ids', 'replace-C-by-A', 'insert-before-C-E-E',
            'roDelete-other-roID', 'roDelete-blank-roID', 'roDelete', 'metadata')
     odd_seqs = [(b, p) for b in ('std', 'blank') for n in range(0, (3 if tier == 'quick' else 4) + 1) for p in itertools.permutations(odd, n)]
+    # the same histories (length <= 2) entered through the documented msg.merge(ro), the serialisation being read between the steps
+    odd_seqs += [('std', p, 'merge') for n in range(1, 3) for p in itertools.permutations(odd, n)]
     enum_parts.append({'label': 'histories-with-repeated-IDs-and-foreign-roDeletes', 'worker': odd_history_worker, 'items': odd_seqs, 'chunk': 40})
     return runner.graph_check(
         'C14', tier, parts, rule=RULE + ' Plus: every history of up to 3 (thorough 5) messages over {roStorySend, roStoryAppend, '
         'roMetadataReplace, roReplace, roDelete} read with from_file from files holding comments and processing instructions: '
         'after every step the serialisation reads back identically through from_string and through from_file. Plus: every history of up to 3 (thorough 4) '
         'messages on one live object over {appends / inserts / replaces that repeat a storyID or carry blank storyIDs, a re-sent append, roDelete for this, another and a blank roID, '
-        'roMetadataReplace}, from a running order with its usual and with a blank roID: read-back identity, story and item IDs, completed flag, one roCreate, at most one completion record.',
+        'roMetadataReplace}, from a running order with its usual and with a blank roID: read-back identity, story and item IDs, completed flag, one roCreate, at most one completion record; the histories of length <= 2 also through msg.merge(ro).',
         vacuity=vacuity, enum_parts=enum_parts,
         assumptions=['all messages of the graph parts are addressed to the running order\'s own roID (the repeated-ID / foreign-roDelete histories are the exception)',
                      'U+000D in text is outside the alphabet (xml.etree writes it raw and every reader normalises it)',
